@@ -90,7 +90,8 @@ RESULT_FIELDS = {"out", "ret", "usedkey", "method", "err", "val", "res", "path",
 
 
 def case_key(ev):
-    return canon({k: v for k, v in ev.items() if k not in RESULT_FIELDS})
+    # ("tree" is the result of PersistMachine's Render / RoundTrip but the *argument* of a Load)
+    return canon({k: v for k, v in ev.items() if k not in RESULT_FIELDS or (k == "tree" and ev.get("op") == "Load")})
 
 
 class Mismatch:
